@@ -141,6 +141,19 @@ let output_props (id : string) (cfg : config) (safe : bool) (out : n list) (tag 
   if not (oracle_C06 v out) then prop "C06" "frame";
   if not (oracle_C10 cfg out) then prop "C10" "opt-in opcode present";
   if not (oracle_C11 cfg out) then prop "C11" "opcode count outside the bounds";
+  (* C11: "the only additional opcodes are the PROTO/FRAME header, the collapse tail and the final STOP" - a PROTO or FRAME
+     anywhere behind the header is an additional opcode of neither kind (no guard admits them, no tail contains them:
+     C05_tokens / C06_tokens for the model) *)
+  (match lex_all out with
+   | Some ts ->
+       let rec behind_header i = function
+         | [] -> ()
+         | (o, _) :: rest ->
+             if (o = PROTO && i > 0) || (o = FRAME && i > 1) then
+               prop "C11" (Printf.sprintf "a %s opcode at token %d, behind the header: an additional opcode that is neither a chosen body opcode, nor the collapse tail, nor STOP" (if o = PROTO then "PROTO" else "FRAME") i)
+             else behind_header (i + 1) rest in
+       behind_header 0 ts
+   | None -> ());
   if safe then begin
     if not (oracle_C01 out) then prop "C01" "rejected by ref machine (whole output)";
     if not (oracle_C02 out) then prop "C02" "memo discipline (whole output)";
